@@ -684,7 +684,7 @@ def _main_stream(ctx, lab, quick):
     if not quick:
         for k in range(ctx.n(1, 8)):
             cases.append({"desc": gen_case(ctx.rng), "storage": ["file_array", "dict"][k % 2], "mode": "threads", "picker": []})
-    check_all(ctx, lab, cases, second=1 if quick else 3, max_states=20 if quick else 200, max_raises=6 if quick else None, second_pts=4 if quick else 24,
+    check_all(ctx, lab, cases, second=1 if quick else 3, max_states=18 if quick else 200, max_raises=6 if quick else None, second_pts=4 if quick else 24,
               raises2=1, raise_firsts_cap=12 if quick else 10**9)      # quick: raise-then-kill histories for the first pipelines only (corpus)
     ctx.notes.append(f"t(crash enumeration)={ctx.elapsed():.1f}s")
 
